@@ -4,8 +4,10 @@ import (
 	"bytes"
 	"context"
 	"crypto/sha256"
+	"crypto/sha3"
 	"crypto/sha512"
 	"fmt"
+	"hash"
 	"math/big"
 	"math/rand/v2"
 	"testing"
@@ -52,6 +54,33 @@ func drawMessage(w *rand.Rand) []byte {
 		return []byte(fmt.Sprintf("message-%d", w.Uint64()))
 	}
 }
+
+// drawHash picks the message digest of an ECDSA suite: the suites accept any
+// hash, and digests shorter or longer than the group order take different
+// paths in the digest-to-scalar conversion. The first runs of a batch walk
+// through the list (so that even a small quick batch meets a short and a long
+// digest), later ones draw.
+func drawHash(w *rand.Rand, index uint64) (string, func() hash.Hash) {
+	k := w.IntN(10)
+	if index < 6 {
+		k = int(index)
+	}
+	switch k {
+	case 1:
+		return "sha224", sha256.New224
+	case 2:
+		return "sha512", sha512.New
+	case 3:
+		return "sha512_224", sha512.New512_224
+	case 4:
+		return "sha384", sha512.New384
+	case 5:
+		return "sha3_256", func() hash.Hash { return sha3.New256() }
+	default:
+		return "sha256", sha256.New
+	}
+}
+
 
 // drawQuorum picks a qualified signing quorum: minimal, minimal plus extra
 // members, or all holders.
@@ -165,7 +194,9 @@ func judgeSignature[G algebra.PrimeGroupElement[G, S], S algebra.PrimeFieldEleme
 		// "for exactly that message"
 		other := append([]byte(nil), ss.msg...)
 		if len(other) == 0 {
-			other = []byte{0}
+			// not {0}: Mina's Poseidon sponge zero-pads its input, so the empty bit string and
+			// a string of zero bits are the same random-oracle input by design of that scheme
+			other = []byte{0xA5}
 		} else {
 			other[len(other)/2] ^= 1
 		}
@@ -444,13 +475,17 @@ func runSignFlavor(rc *harness.RunCtx, name string) (out harness.Outcome) {
 				out = runSignWith(rc, flavorL22Vanilla(kitEd25519(), "sha512", sha512.New, w.IntN(2) == 0, w.IntN(2) == 0), false)
 			}
 		case "dkls23-bbot-k256":
-			out = runSignWith(rc, flavorDKLs23(kitK256(), ecdsaK256(), "bbot", "sha256", sha256.New), true)
+			hn, hf := drawHash(w, rc.Index)
+			out = runSignWith(rc, flavorDKLs23(kitK256(), ecdsaK256(), "bbot", hn, hf), true)
 		case "dkls23-bbot-p256":
-			out = runSignWith(rc, flavorDKLs23(kitP256(), ecdsaP256(), "bbot", "sha256", sha256.New), true)
+			hn, hf := drawHash(w, rc.Index)
+			out = runSignWith(rc, flavorDKLs23(kitP256(), ecdsaP256(), "bbot", hn, hf), true)
 		case "dkls23-softspoken-k256":
-			out = runSignWith(rc, flavorDKLs23(kitK256(), ecdsaK256(), "softspoken", "sha256", sha256.New), true)
+			hn, hf := drawHash(w, rc.Index)
+			out = runSignWith(rc, flavorDKLs23(kitK256(), ecdsaK256(), "softspoken", hn, hf), true)
 		case "dkls23-softspoken-p256":
-			out = runSignWith(rc, flavorDKLs23(kitP256(), ecdsaP256(), "softspoken", "sha512", sha512.New), true)
+			hn, hf := drawHash(w, rc.Index)
+			out = runSignWith(rc, flavorDKLs23(kitP256(), ecdsaP256(), "softspoken", hn, hf), true)
 		default:
 			out = runSignExtra(rc, name)
 		}
@@ -473,6 +508,7 @@ func C01Workloads() []harness.Workload {
 		signWorkload("dkls23-bbot-p256", 3, 200),
 		signWorkload("dkls23-softspoken-k256", 6, 400),
 		signWorkload("dkls23-softspoken-p256", 3, 200),
+		signWorkload("lindell22-mina", 8, 800),
 		signWorkload("boldyreva-short", 12, 400),
 		signWorkload("boldyreva-long", 12, 400),
 		signWorkload("lindell17", 4, 120),
